@@ -102,6 +102,11 @@ func init() {
 			switch zc.Class {
 			case "tld", "related-names", "name", "extension", "validity", "sigalg", "own-key":
 				certs = append(certs, CorpusCert{"generated-" + zc.File, zc.DER, zc.Cert})
+			case "policies", "aia", "subject-repeat":
+				// (not "generated-": these are compared under the filter specifications only, not lint by lint)
+				if (zc.Class == "policies" && zc.Cert.IsCA) || len(zc.DER)%5 == 0 {
+					certs = append(certs, CorpusCert{zc.File, zc.DER, zc.Cert})
+				}
 			case "ku-eku", "subject-string-type":
 				if len(zc.DER)%7 == 0 {
 					certs = append(certs, CorpusCert{"generated-" + zc.File, zc.DER, zc.Cert})
